@@ -23,7 +23,7 @@ ROOT_NOW = z3.Const("container_root_wrapper_obtained_by_this_call", Node)
 T_QUERY = [
     "plugin_args(schema, version) normalises the two arguments to (name, version or None)",
     "start.visititems(f) calls f(path, node) once for every user-visible node strictly below start, in pre-order, with nodes wrapped from start (flags inherited): that is the wrappers' contract (C08/C15); here it is the sequence visited_node(start, 0..n-1)",
-    "(name, version) in node.meta is MetadorMeta.__contains__ (bounded tier; its parts _get_raw/get are under contract in C07)",
+    "(name, version) in node.meta is MetadorMeta.__contains__ (its own contract, specs/metaread.py: iff the node-level query yields something)",
 ]
 
 
@@ -51,34 +51,13 @@ class NodeVal(SVal):
         raise Unsupported(f"isinstance(node, {n})")
 
     def meth_visititems(self, cx, cb):
-        """Reads the callback: it must be `if <cond(node)>: <list>.append(node)`; then the list grows by the visited nodes passing cond, in visit order."""
-        if not isinstance(cb, Closure) or not isinstance(cb.node, ast.FunctionDef):
-            raise Unsupported("visititems with something else than a nested def")
-        fn = cb.node
-        if len(fn.args.args) != 2 or len(fn.body) != 1 or not isinstance(fn.body[0], ast.If) or fn.body[0].orelse or len(fn.body[0].body) != 1:
-            raise ContractStale("the visit callback is no longer `if cond: list.append(node)`")
-        st = fn.body[0].body[0]
-        pn = fn.args.args[1].arg
-        ok = (isinstance(st, ast.Expr) and isinstance(st.value, ast.Call) and isinstance(st.value.func, ast.Attribute) and st.value.func.attr == "append"
-              and isinstance(st.value.func.value, ast.Name) and len(st.value.args) == 1 and isinstance(st.value.args[0], ast.Name) and st.value.args[0].id == pn)  # fmt: skip
-        if not ok:
-            raise ContractStale("the visit callback does not append the visited node itself")
-        target = cb.env.lookup(st.value.func.value.id)
+        """Reads the callback (pyvc.api.read_guarded_append_callback): the list grows by the visited nodes passing its condition, in visit order."""
+        from pyvc.api import read_guarded_append_callback
+
+        target, pred = read_guarded_append_callback(cx.run.interp, cx, cb, cx.run.spec, lambda t: NodeVal(t))
         if not isinstance(target, Collected):
             raise ContractStale("the visit callback appends to something else than the result list")
-        interp, start = cx.run.interp, self.t
-        cond_node = fn.body[0].test
-
-        def pred(node_t):
-            sub = Frame(cb.modinfo, cx.run.spec.qual, Env(cb.env), spec=cx.run.spec)
-            sub.env.set(fn.args.args[0].arg, SStr(z3.String(fresh_name("visit_path"))))
-            sub.env.set(pn, NodeVal(node_t))
-            vals, fails, axioms = interp.eval_exprs_on_element(cx, sub, None, None, [cond_node], node_t)
-            if fails or axioms:
-                raise Unsupported("the visit condition may raise")
-            return as_bool(cx, truth(cx, vals[0]))
-
-        target.parts.append(("visited-passing", start, pred))
+        target.parts.append(("visited-passing", self.t, pred))
 
 
 class MetaOf(SVal):
